@@ -97,6 +97,15 @@ def _work(item):
         run.st.g.set_resolution(float(r2))
         run.st.g.set_direction("counter" if direction == "clockwise" else "clockwise")
         r = float(run.st.g.state.resolution)
+        for bad in (0.0, -1.0):
+            # a rejected setter call leaves the last accepted resolution in force (if an implementation accepts the
+            # value, the accepted one is simply set again)
+            try:
+                run.st.g.set_resolution(bad)
+            except Exception:    # noqa: BLE001
+                pass
+            else:
+                run.st.g.set_resolution(float(r2))
         exc2, verts2 = run.trace(shape, args, start=START)
         rp = {"kind": kind, "index": idx, "label": f"circle R{R} twice", "resolution": resolution, "direction": direction, "mode": mode, "units": units}
         if exc is not None or exc2 is not None:
